@@ -5,13 +5,28 @@ package memoryevict
 // builds the eviction tasks with the REAL strategy code (buildEvictTask: release target computation,
 // eligibility filter, sorting, per-pod release function), hands them to the REAL
 // qosmanagerUtil.KillAndEvictPods with a recording EvictionExecutor and logs
-//   reset  {in: generator output (replay script), pods: name -> attributes as set on the pod object,
-//           tasks: [{feature, kind, thr, tt, need, list (real sorted candidates), c (real per-pod release)}]}
+//   reset  {in: generator output (replay script), pods: name -> attributes as set on the pod object / in the metric
+//           cache, usedRes + unit (resource of the usage target; unit of the pod usage samples, see c11In.Unit),
+//           tasks: [{feature, kind, thr, tt, need, list (real sorted candidates), c (the code's own per-pod credit)}]}
 //   seen / evict / ret   as in the util harness.
+// What a victim releases is computed by TLC from the pod attributes (usage sample, declared request) - the `c`
+// figures are the code's own credit, logged for the reader only (they are NOT trusted).
+//
+// Round mode (in.rounds non-empty): the same world is driven through the REAL entry point memoryEvict() with the REAL
+// DefaultEvictionExecutor / Evictor on a fake API server, for several rounds, feature gates set per case:
+//   reset  {in, mode:"rounds", pods, usedRes, unit, tasks: []}
+//   round  {present: pods still there, tasks: the tasks the real buildEvictTask builds for this state (observed by a
+//           build of our own right before the round: targets and candidate lists are inputs of the property)}
+//   seen / evict   what the loop asks of the real executor, with the real answers
+//   end    memoryEvict() returned
+// Between rounds the harness plays the API server / kubelet: a pod whose eviction was accepted gets a
+// deletionTimestamp (unless the informer lags: attribute lag) and stays for `linger` more rounds, still holding its
+// memory.  Whether a pod counts as already evicted is derived by TLC from the history, not told by the harness.
 // No oracle here: eligibility, order and minimality are decided by TLC from the attributes.
 
 import (
 	"encoding/json"
+	"errors"
 	"io"
 	"math/rand"
 	"reflect"
@@ -23,9 +38,13 @@ import (
 
 	promstorage "github.com/prometheus/prometheus/storage"
 	corev1 "k8s.io/api/core/v1"
+	policyv1 "k8s.io/api/policy/v1"
 	"k8s.io/apimachinery/pkg/api/resource"
 	metav1 "k8s.io/apimachinery/pkg/apis/meta/v1"
+	"k8s.io/apimachinery/pkg/runtime"
 	"k8s.io/apimachinery/pkg/types"
+	clientsetfake "k8s.io/client-go/kubernetes/fake"
+	clienttesting "k8s.io/client-go/testing"
 	"k8s.io/component-base/featuregate"
 	"k8s.io/klog/v2"
 	"k8s.io/utils/ptr"
@@ -50,10 +69,14 @@ type c11Pod struct {
 	HasLp      bool     `json:"hasLp"`
 	Lp         int64    `json:"lp"` // koordinator.sh/priority
 	HasMetric  bool     `json:"hasMetric"`
-	Used       int64    `json:"used"` // pod memory usage metric (bytes)
-	Req        int64    `json:"req"`  // request in the memory resource of the pod's priority class
+	Used       int64    `json:"used"`   // pod memory usage metric (bytes)
+	Req        int64    `json:"req"`    // request in the memory resource of the pod's priority class
+	ReqRes     string   `json:"reqRes"` // the resource name the request is declared under
 	Already    bool     `json:"already"`
+	Term       bool     `json:"term"` // the pod object carries a deletionTimestamp (an already-evicted pod that is terminating)
 	Fails      bool     `json:"fails"`
+	Linger     int      `json:"linger"` // round mode: rounds the pod stays present after its eviction was accepted
+	Lag        bool     `json:"lag"`    // round mode: ... and the informer does not show its deletionTimestamp yet
 }
 
 type c11In struct {
@@ -69,6 +92,11 @@ type c11In struct {
 	AllocLo    int64    `json:"allocLo"`  // MemoryAllocatableEvictLowerPercent
 	AllocBatch int64    `json:"allocBatch"`
 	AllocMid   int64    `json:"allocMid"` // node allocatable batch-memory / mid-memory (-1 = not reported)
+	// Unit of the pod usage samples in terms of the node figures: 1, or 1000 in cases where MemoryEvict takes part -
+	// that strategy (getPodEvictInfoAndSortByPriority) reads a pod's sample times 1000 (reported, outside C11): the
+	// cases are built so that this reading is the true one (capacity / node usage are given in the small unit)
+	Unit   int64   `json:"unit"`
+	Rounds []int64 `json:"rounds,omitempty"` // round mode: node memory usage of each round of the real memoryEvict()
 }
 
 // ---- fakes for the informer and the metric cache (table lookups only)
@@ -210,7 +238,17 @@ func c11BuildPod(p c11Pod) *corev1.Pod {
 	if p.HasEp {
 		pod.Annotations["koordinator.sh/eviction-priority"] = strconv.FormatInt(int64(p.Ep), 10)
 	}
+	if p.Term {
+		c11Terminating(pod)
+	}
 	return pod
+}
+
+// the API server accepted the deletion of the pod: it is terminating (still running, still holding its memory)
+func c11Terminating(pod *corev1.Pod) {
+	ts := metav1.NewTime(time.Unix(1700000000, 0))
+	pod.DeletionTimestamp = &ts
+	pod.DeletionGracePeriodSeconds = ptr.To[int64](30)
 }
 
 func c11RLObs(rl corev1.ResourceList) map[string]int64 {
@@ -231,13 +269,8 @@ type taskObs struct {
 	thr     int32
 }
 
-type podInfoRef struct {
-	task int
-	info *qosmanagerUtil.PodEvictInfo
-}
-
 // run the real loop, log the returned ReleaseList (field reads only)
-func c11Kill(rec *vu.Recorder, ex *c11Exec, node *corev1.Node, tasks []*qosmanagerUtil.EvictTaskInfo) {
+func c11Kill(rec *vu.Recorder, ex qosmanagerUtil.EvictionExecutor, node *corev1.Node, tasks []*qosmanagerUtil.EvictTaskInfo) {
 	var released qosmanagerUtil.ReleaseList
 	var newly bool
 	if panicked, msg := vu.Protect(func() { released, newly = qosmanagerUtil.KillAndEvictPods(ex, node, tasks) }); panicked {
@@ -257,14 +290,34 @@ var c11Kinds = map[string]string{
 	string(features.MemoryAllocatableEvict): "prio_req",
 }
 
-// returns false when the case was not recorded (no task fired, or ill-defined for the model)
-func c11Run(rec *vu.Recorder, in *c11In, stats map[string]int) bool {
-	podAttr := map[string]interface{}{}
-	podByName := map[string]c11Pod{}
-	var pods []*corev1.Pod
-	vals := map[string]float64{}
+// trigger order of memoryEvict()
+var c11Trigger = []string{string(features.BEMemoryEvict), string(features.MemoryAllocatableEvict), string(features.MemoryEvict)}
+
+// the generated world as real objects
+type c11World struct {
+	in        *c11In
+	podAttr   map[string]interface{}
+	podByName map[string]c11Pod
+	pods      []*corev1.Pod
+	vals      map[string]float64
+	nodeKey   string
+	node      *corev1.Node
+	slo       *slov1alpha1.NodeSLO
+	inf       *c11Informer
+	m         *memoryEvictor
+}
+
+func c11Build(in *c11In, rounds bool) *c11World {
+	w := &c11World{in: in, podAttr: map[string]interface{}{}, podByName: map[string]c11Pod{}, vals: map[string]float64{}}
+	if in.Unit == 0 { // scripts recorded before the unit was made explicit
+		in.Unit = 1
+		if len(in.Features) > 0 && in.Features[len(in.Features)-1] == string(features.MemoryEvict) {
+			in.Unit = 1000
+		}
+	}
 	nodeMeta, _ := metriccache.NodeMemoryUsageMetric.BuildQueryMeta(nil)
-	vals[c11Key(nodeMeta)] = float64(in.NodeUsed)
+	w.nodeKey = c11Key(nodeMeta)
+	w.vals[w.nodeKey] = float64(in.NodeUsed)
 	for i := range in.Pods {
 		p := in.Pods[i]
 		if p.Policy == nil {
@@ -273,24 +326,33 @@ func c11Run(rec *vu.Recorder, in *c11In, stats map[string]int) bool {
 		if !p.HasMetric {
 			p.Used = 0
 		}
+		p.ReqRes = string(c11MemRes(p.Prio))
+		if rounds {
+			p.Already, p.Term = false, false // history decides
+		} else {
+			p.Linger, p.Lag = 0, false
+			if !p.Already {
+				p.Term = false
+			}
+		}
 		in.Pods[i] = p
-		podByName[p.Name] = p
-		pods = append(pods, c11BuildPod(p))
-		podAttr[p.Name] = p
+		w.podByName[p.Name] = p
+		w.pods = append(w.pods, c11BuildPod(p))
+		w.podAttr[p.Name] = p
 		if p.HasMetric {
 			meta, _ := metriccache.PodMemUsageMetric.BuildQueryMeta(metriccache.MetricPropertiesFunc.Pod(p.Name))
-			vals[c11Key(meta)] = float64(p.Used)
+			w.vals[c11Key(meta)] = float64(p.Used)
 		}
 	}
-	node := &corev1.Node{ObjectMeta: metav1.ObjectMeta{Name: "c11-node"}, Status: corev1.NodeStatus{
+	w.node = &corev1.Node{ObjectMeta: metav1.ObjectMeta{Name: "c11-node"}, Status: corev1.NodeStatus{
 		Capacity:    corev1.ResourceList{corev1.ResourceCPU: resource.MustParse("100"), corev1.ResourceMemory: *resource.NewQuantity(in.Capacity, resource.BinarySI)},
 		Allocatable: corev1.ResourceList{corev1.ResourceCPU: resource.MustParse("100"), corev1.ResourceMemory: *resource.NewQuantity(in.Capacity, resource.BinarySI)},
 	}}
 	if in.AllocBatch >= 0 {
-		node.Status.Allocatable["kubernetes.io/batch-memory"] = *resource.NewQuantity(in.AllocBatch, resource.BinarySI)
+		w.node.Status.Allocatable["kubernetes.io/batch-memory"] = *resource.NewQuantity(in.AllocBatch, resource.BinarySI)
 	}
 	if in.AllocMid >= 0 {
-		node.Status.Allocatable["kubernetes.io/mid-memory"] = *resource.NewQuantity(in.AllocMid, resource.BinarySI)
+		w.node.Status.Allocatable["kubernetes.io/mid-memory"] = *resource.NewQuantity(in.AllocMid, resource.BinarySI)
 	}
 	cfg := &slov1alpha1.ResourceThresholdStrategy{
 		Enable:                                 ptr.To(true),
@@ -301,21 +363,27 @@ func c11Run(rec *vu.Recorder, in *c11In, stats map[string]int) bool {
 		MemoryAllocatableEvictThresholdPercent: ptr.To(in.AllocTh),
 		MemoryAllocatableEvictLowerPercent:     ptr.To(in.AllocLo),
 	}
-	slo := &slov1alpha1.NodeSLO{Spec: slov1alpha1.NodeSLOSpec{ResourceUsedThresholdWithBE: cfg}}
+	w.slo = &slov1alpha1.NodeSLO{Spec: slov1alpha1.NodeSLOSpec{ResourceUsedThresholdWithBE: cfg}}
 	var metas []*statesinformer.PodMeta
-	for _, pod := range pods {
+	for _, pod := range w.pods {
 		metas = append(metas, &statesinformer.PodMeta{Pod: pod})
 	}
-	m := &memoryEvictor{
-		statesInformer:        &c11Informer{pods: metas, node: node, slo: slo},
-		metricCache:           &c11Cache{q: &c11Querier{vals: vals}},
+	w.inf = &c11Informer{pods: metas, node: w.node, slo: w.slo}
+	w.m = &memoryEvictor{
+		statesInformer:        w.inf,
+		metricCache:           &c11Cache{q: &c11Querier{vals: w.vals}},
 		metricCollectInterval: time.Second,
 	}
-	// the task construction of memoryEvict(): one task per triggered feature, in trigger order
-	ex := &c11Exec{rec: rec, pods: podByName, tasks: map[string]int{}}
+	return w
+}
+
+// the task construction of memoryEvict(): one task per triggered feature, in trigger order; plus the observation of
+// the task setup: candidates in the real order, target, and the code's own per-pod credit (for the reader)
+func (w *c11World) tasks(stats map[string]int) ([]*taskObs, []interface{}, map[string]int) {
+	reasons := map[string]int{}
 	var built []*taskObs
-	for _, f := range in.Features {
-		task, err := m.buildEvictTask(featuregate.Feature(f), slo, node)
+	for _, f := range w.in.Features {
+		task, err := w.m.buildEvictTask(featuregate.Feature(f), w.slo, w.node)
 		if err != nil {
 			stats["buildErr"]++
 			continue
@@ -323,47 +391,44 @@ func c11Run(rec *vu.Recorder, in *c11In, stats map[string]int) bool {
 		if task == nil {
 			continue
 		}
-		thr := in.PrioThr
+		thr := w.in.PrioThr
 		if f == string(features.MemoryAllocatableEvict) {
-			thr = in.AllocThr
+			thr = w.in.AllocThr
 		}
 		built = append(built, &taskObs{task: task, feature: f, thr: thr})
-		ex.tasks[task.Reason] = len(built)
+		reasons[task.Reason] = len(built)
 	}
-	if len(built) == 0 {
-		stats["noTask"]++
-		return false
-	}
-	// observation of the task setup: candidates in the real order, target, per-pod release per task
-	infoOf := map[string][]*podInfoRef{}
+	infoOf := map[string][]*qosmanagerUtil.PodEvictInfo{}
 	var union []string
-	for ti, b := range built {
+	for _, b := range built {
 		for _, info := range b.task.SortedEvictPods {
 			n := info.Pod.Name
 			if _, ok := infoOf[n]; !ok {
 				union = append(union, n)
 			}
-			infoOf[n] = append(infoOf[n], &podInfoRef{task: ti, info: info})
+			infoOf[n] = append(infoOf[n], info)
 		}
 	}
 	sort.Strings(union)
-	var tasksEv []interface{}
+	tasksEv := []interface{}{}
 	for _, b := range built {
 		c := map[string]map[string]int64{}
+		own := map[string]*qosmanagerUtil.PodEvictInfo{}
+		for _, info := range b.task.SortedEvictPods {
+			own[info.Pod.Name] = info
+		}
 		for _, n := range union {
-			var first map[string]int64
-			for k, ref := range infoOf[n] {
-				got := c11RLObs(b.task.GetPodResourceFunc(ref.info))
-				if k == 0 {
-					first = got
-				} else if !reflect.DeepEqual(first, got) {
-					// the same pod is described differently in two candidate lists: no single figure
-					// for "what its removal releases" - not a case the model can judge
-					stats["ambiguous"]++
-					return false
+			info := own[n]
+			if info == nil {
+				info = infoOf[n][0]
+			}
+			c[n] = c11RLObs(b.task.GetPodResourceFunc(info))
+			for _, other := range infoOf[n] {
+				if !reflect.DeepEqual(c[n], c11RLObs(b.task.GetPodResourceFunc(other))) {
+					stats["pod-described-differently-in-two-lists"]++ // used to be dropped; now judged like every other case
+					break
 				}
 			}
-			c[n] = first
 		}
 		list := []string{}
 		for _, info := range b.task.SortedEvictPods {
@@ -373,12 +438,157 @@ func c11Run(rec *vu.Recorder, in *c11In, stats map[string]int) bool {
 			"tt": string(b.task.ReleaseTarget), "need": c11RLObs(b.task.ToReleaseResource), "list": list, "c": c})
 		stats["task:"+b.feature]++
 	}
-	rec.Reset(vu.Ev{"in": in, "pods": podAttr, "tasks": tasksEv})
+	if len(built) > 1 {
+		stats["multi-task"]++
+	}
+	return built, tasksEv, reasons
+}
+
+// returns false when the case was not recorded (no task fired)
+func c11Run(rec *vu.Recorder, in *c11In, stats map[string]int) bool {
+	if len(in.Rounds) > 0 {
+		return c11RunRounds(rec, in, stats)
+	}
+	w := c11Build(in, false)
+	built, tasksEv, reasons := w.tasks(stats)
+	if len(built) == 0 {
+		stats["noTask"]++
+		return false
+	}
+	ex := &c11Exec{rec: rec, pods: w.podByName, tasks: reasons}
+	rec.Reset(vu.Ev{"in": in, "pods": w.podAttr, "tasks": tasksEv, "usedRes": "memory", "unit": in.Unit})
 	var tasks []*qosmanagerUtil.EvictTaskInfo
 	for _, b := range built {
 		tasks = append(tasks, b.task)
 	}
-	c11Kill(rec, ex, node, tasks)
+	c11Kill(rec, ex, w.node, tasks)
+	return true
+}
+
+// ---- round mode: the real entry point with the real executor
+
+type c11Events struct{}
+
+func (c11Events) Event(runtime.Object, string, string, string)                  {}
+func (c11Events) Eventf(runtime.Object, string, string, string, ...interface{}) {}
+func (c11Events) AnnotatedEventf(runtime.Object, map[string]string, string, string, string, ...interface{}) {
+}
+
+// records what the loop asks of the real executor and what it answers
+type c11RoundExec struct {
+	rec   *vu.Recorder
+	inner qosmanagerUtil.EvictionExecutor
+	tasks map[string]int
+	ok    []string // evictions accepted in the current round
+}
+
+func (e *c11RoundExec) IsPodEvicted(pod *corev1.Pod) bool {
+	a := e.inner.IsPodEvicted(pod)
+	if a {
+		e.rec.Emit(vu.Ev{"op": "seen", "pod": pod.Name})
+	}
+	return a
+}
+
+func (e *c11RoundExec) Evict(pod *corev1.Pod, node *corev1.Node, releaseReason string, message string) bool {
+	ti := 0
+	for reason, i := range e.tasks {
+		if strings.Contains(message, reason) {
+			ti = i
+		}
+	}
+	if ti == 0 {
+		c11Unattributed++
+	}
+	ok := e.inner.Evict(pod, node, releaseReason, message)
+	if ok {
+		e.ok = append(e.ok, pod.Name)
+	}
+	e.rec.Emit(vu.Ev{"op": "evict", "pod": pod.Name, "task": ti, "ok": ok})
+	return ok
+}
+
+func c11RunRounds(rec *vu.Recorder, in *c11In, stats map[string]int) bool {
+	w := c11Build(in, true)
+	gates := map[string]bool{}
+	for _, f := range c11Trigger {
+		gates[f] = false
+	}
+	var feats []string
+	for _, f := range c11Trigger { // trigger order of the real entry point, whatever the script says
+		for _, g := range in.Features {
+			if f == g {
+				gates[f] = true
+				feats = append(feats, f)
+			}
+		}
+	}
+	in.Features = feats
+	if err := features.DefaultMutableKoordletFeatureGate.SetFromMap(gates); err != nil {
+		panic(err)
+	}
+	// the real Evictor (eviction API) on a fake API server; an eviction of a pod with attribute fails is refused
+	client := clientsetfake.NewSimpleClientset()
+	client.PrependReactor("create", "pods", func(action clienttesting.Action) (bool, runtime.Object, error) {
+		if action.GetSubresource() != "eviction" {
+			return false, nil, nil
+		}
+		if ca, ok := action.(clienttesting.CreateAction); ok {
+			if ev, ok := ca.GetObject().(*policyv1.Eviction); ok && w.podByName[ev.Name].Fails {
+				return true, nil, errors.New("Cannot evict pod as it would violate the pod's disruption budget.")
+			}
+		}
+		return true, nil, nil
+	})
+	stop := make(chan struct{})
+	defer close(stop)
+	evictor := qosmanagerUtil.NewEvictor(client, c11Events{}, policyv1.SchemeGroupVersion.Version)
+	if err := evictor.Start(stop); err != nil {
+		panic(err)
+	}
+	ex := &c11RoundExec{rec: rec, inner: &qosmanagerUtil.DefaultEvictionExecutor{OnlyEvictByAPI: true, Evictor: evictor}}
+	w.m.evictExecutor = ex
+	rec.Reset(vu.Ev{"in": in, "mode": "rounds", "pods": w.podAttr, "tasks": []interface{}{}, "usedRes": "memory", "unit": in.Unit})
+	evictedAt := map[string]int{}
+	for r, used := range in.Rounds {
+		// the world of this round
+		present := []string{}
+		var metas []*statesinformer.PodMeta
+		for i, pod := range w.pods {
+			p := in.Pods[i]
+			if e, ok := evictedAt[p.Name]; ok {
+				if r-e > p.Linger {
+					continue // terminated and gone
+				}
+				if !p.Lag {
+					pod = pod.DeepCopy()
+					c11Terminating(pod)
+				}
+			}
+			present = append(present, p.Name)
+			metas = append(metas, &statesinformer.PodMeta{Pod: pod})
+		}
+		w.inf.pods = metas
+		w.vals[w.nodeKey] = float64(used)
+		_, tasksEv, reasons := w.tasks(stats)
+		rec.Emit(vu.Ev{"op": "round", "n": r + 1, "present": present, "tasks": tasksEv})
+		if len(tasksEv) > 0 {
+			stats["round-with-task"]++
+		}
+		ex.tasks, ex.ok = reasons, nil
+		w.m.lastEvictTime = time.Unix(0, 0) // the cool-down is over
+		if panicked, msg := vu.Protect(func() { w.m.memoryEvict() }); panicked {
+			rec.Emit(vu.Ev{"op": "panic", "msg": msg})
+			return true
+		}
+		rec.Emit(vu.Ev{"op": "end"})
+		for _, n := range ex.ok {
+			if _, ok := evictedAt[n]; !ok {
+				evictedAt[n] = r
+			}
+		}
+	}
+	stats["rounds-segment"]++
 	return true
 }
 
@@ -390,10 +600,20 @@ func c11Random(rng *rand.Rand) *c11In {
 		{string(features.MemoryAllocatableEvict), string(features.MemoryEvict)},
 	}
 	in := &c11In{Features: combos[rng.Intn(len(combos))]}
+	// focus: mostly eligible pods and targets that a strict prefix of the candidates can cover (so that what happens
+	// AFTER a target is met is exercised, also in later rounds and across the two targets)
+	focus := rng.Intn(3) == 0
+	// plain: pods of no koordinator priority class (koord-free / default) whose plain memory requests exceed the
+	// allocatable threshold of the node's memory
+	plain := !focus && rng.Intn(12) == 0
+	if plain {
+		in.Features = combos[2]
+	}
 	scale := int64(1)
 	if in.Features[len(in.Features)-1] == string(features.MemoryEvict) {
 		scale = 1000 // that strategy records a pod's usage times 1000
 	}
+	in.Unit = scale
 	in.Capacity = 100 * scale
 	in.EvictTh = 50
 	in.EvictLo = 50 - int64(1+rng.Intn(4))
@@ -401,7 +621,6 @@ func c11Random(rng *rand.Rand) *c11In {
 	if rng.Intn(20) == 0 {
 		pct = 45
 	}
-	in.NodeUsed = pct * scale
 	in.PrioThr = []int32{3999, 5499, 5999, 7999, 9999}[rng.Intn(5)]
 	in.AllocThr = []int32{5999, 7499, 7999}[rng.Intn(3)]
 	in.AllocTh = []int64{10, 30}[rng.Intn(2)]
@@ -410,8 +629,26 @@ func c11Random(rng *rand.Rand) *c11In {
 	in.AllocMid = []int64{-1, 0, 10, 20}[rng.Intn(4)]
 	n := 1 + rng.Intn(6)
 	prios := []int32{3500, 5000, 5500, 7000, 7500, 9500}
+	if focus {
+		in.EvictLo = 49 - int64(rng.Intn(2))
+		pct = int64(50 + rng.Intn(4)) // release 1..5 units
+		in.PrioThr = []int32{7999, 9999}[rng.Intn(2)]
+		in.AllocThr = []int32{7499, 7999}[rng.Intn(2)]
+		in.AllocLo = in.AllocTh - int64(1+rng.Intn(6)) // release a few units below what is requested
+		in.AllocBatch = []int64{10, 20}[rng.Intn(2)]
+		in.AllocMid = []int64{10, 20}[rng.Intn(2)]
+		n = 3 + rng.Intn(4)
+		prios = []int32{5000, 5500, 5500, 7000, 7500, 7500}
+	}
+	if plain {
+		in.AllocThr = []int32{5999, 7999}[rng.Intn(2)]
+		in.AllocTh = 10
+		n = 4 + rng.Intn(3)
+		prios = []int32{3500, 3500, 3500, 3500, 5000, 5500}
+	}
+	in.NodeUsed = pct * scale
 	policies := []string{string(features.BEMemoryEvict), string(features.MemoryEvict), string(features.MemoryAllocatableEvict), "CPUEvict"}
-	strict := rng.Intn(3) == 0 // mostly-eligible pod sets exercise order and minimality, mixed ones eligibility
+	strict := focus || plain || rng.Intn(3) == 0 // mostly-eligible pod sets exercise order and minimality, mixed ones eligibility
 	for i := 0; i < n; i++ {
 		p := c11Pod{Name: "p" + strconv.Itoa(i+1), Policy: []string{}}
 		p.QoS = []string{"BE", "BE", "BE", "LS", ""}[rng.Intn(5)]
@@ -419,7 +656,9 @@ func c11Random(rng *rand.Rand) *c11In {
 		p.EvictLabel = []string{"true", "true", "true", "true", "false", ""}[rng.Intn(6)]
 		if strict {
 			p.QoS, p.EvictLabel = "BE", "true"
-			p.Prio = prios[rng.Intn(3)]
+			if !focus && !plain {
+				p.Prio = prios[rng.Intn(3)]
+			}
 		}
 		if rng.Intn(4) == 0 && !strict {
 			p.HasPolicy = true
@@ -440,9 +679,32 @@ func c11Random(rng *rand.Rand) *c11In {
 			p.Used = int64(rng.Intn(4))
 		}
 		p.Req = int64(rng.Intn(4))
+		if focus {
+			p.HasMetric, p.Used, p.Req = true, int64(1+rng.Intn(3)), int64(1+rng.Intn(3))
+		}
+		if plain {
+			p.HasMetric, p.Req = true, int64(2+rng.Intn(2))
+		}
 		p.Already = rng.Intn(7) == 0
+		p.Term = p.Already && rng.Intn(3) > 0 // an evicted pod that is still there is usually terminating
 		p.Fails = rng.Intn(7) == 0
+		p.Linger = []int{0, 1, 9, 9}[rng.Intn(4)]
+		p.Lag = rng.Intn(4) == 0
 		in.Pods = append(in.Pods, p)
+	}
+	return in
+}
+
+// round mode: 2-3 rounds of the real memoryEvict(), mostly under unchanged pressure
+func c11RandomRounds(rng *rand.Rand) *c11In {
+	in := c11Random(rng)
+	nr := 2 + rng.Intn(2)
+	for r := 0; r < nr; r++ {
+		u := in.NodeUsed
+		if r > 0 && rng.Intn(3) == 0 {
+			u = int64(48+rng.Intn(12)) * in.Unit // pressure changed (possibly gone)
+		}
+		in.Rounds = append(in.Rounds, u)
 	}
 	return in
 }
@@ -456,6 +718,11 @@ func TestVerifC11(t *testing.T) {
 	orig := metriccache.DefaultAggregateResultFactory
 	metriccache.DefaultAggregateResultFactory = c11Factory{}
 	defer func() { metriccache.DefaultAggregateResultFactory = orig }()
+	gates := map[string]bool{}
+	for _, f := range c11Trigger {
+		gates[f] = features.DefaultKoordletFeatureGate.Enabled(featuregate.Feature(f))
+	}
+	defer func() { _ = features.DefaultMutableKoordletFeatureGate.SetFromMap(gates) }()
 	rec := vu.NewRecorder("")
 	defer rec.Close()
 	stats := map[string]int{}
@@ -471,13 +738,17 @@ func TestVerifC11(t *testing.T) {
 		}
 		return
 	}
-	n := 3000
+	n, nr := 3000, 1000
 	if vu.Thorough() {
-		n = 30000
+		n, nr = 30000, 12000
 	}
 	rng := vu.Rand(1101)
 	for i := 0; i < n; i++ {
 		c11Run(rec, c11Random(rng), stats)
+	}
+	rng = vu.Rand(1104)
+	for i := 0; i < nr; i++ {
+		c11Run(rec, c11RandomRounds(rng), stats)
 	}
 	if c11Unattributed > 0 {
 		t.Fatalf("C11 memoryevict: %d Evict calls could not be attributed to a task (message format changed?)", c11Unattributed)
